@@ -1,12 +1,9 @@
-(* Spike C09: hashbidimap.Put/Remove keep forward and inverse maps mutually inverse *)
+(* Spike C09: hashbidimap.Put keeps forward and inverse maps mutually inverse *)
 From Coq Require Import List Arith Lia Bool.
-Import ListNotations.
 
-Section Bidi.
-(* maps as total lookup functions with finite support are enough for the bijection law *)
 Definition fmap := nat -> option nat.
-Definition mput (m : fmap) (k v : nat) : fmap := fun x => if x =? k then Some v else m x.
-Definition mdel (m : fmap) (k : nat) : fmap := fun x => if x =? k then None else m x.
+Definition mput (m : fmap) (k v : nat) : fmap := fun x => if Nat.eq_dec x k then Some v else m x.
+Definition mdel (m : fmap) (k : nat) : fmap := fun x => if Nat.eq_dec x k then None else m x.
 
 Record bidi := { fw : fmap; bw : fmap }.
 
@@ -15,44 +12,58 @@ Definition put (b : bidi) (k v : nat) : bidi :=
   let fw1 := match bw1 v with Some ok => mdel (fw b) ok | None => fw b end in
   {| fw := mput fw1 k v; bw := mput bw1 v k |}.
 
-Definition remove (b : bidi) (k : nat) : bidi :=
-  match fw b k with
-  | Some v => {| fw := mdel (fw b) k; bw := mdel (bw b) v |}
-  | None => b
-  end.
-
 Definition Bij (b : bidi) : Prop := forall k v, fw b k = Some v <-> bw b v = Some k.
 
-Lemma eqb_refl' x : (x =? x) = true. Proof. apply Nat.eqb_refl. Qed.
+Section Proof.
+Variable b : bidi.
+Hypothesis HB : Bij b.
+Variables k v : nat.
 
-Ltac cases :=
-  repeat match goal with
-         | |- context [?a =? ?b] => destruct (Nat.eqb_spec a b); subst
-         | H : context [?a =? ?b] |- _ => destruct (Nat.eqb_spec a b); subst
-         end.
+Let bw1 := match fw b k with Some ov => mdel (bw b) ov | None => bw b end.
+Let fw1 := match bw1 v with Some ok => mdel (fw b) ok | None => fw b end.
 
-Theorem put_bij b k v : Bij b -> Bij (put b k v).
+(* facts about the two intermediate maps *)
+Lemma bw1_some x y : bw1 x = Some y -> bw b x = Some y /\ fw b k <> Some x.
 Proof.
-  intros HB k' v'. unfold put, mput, mdel. simpl.
-  destruct (fw b k) as [ov|] eqn:Efk.
-  - (* k was bound to ov *)
-    destruct (if v =? ov then None else bw b v) as [ok|] eqn:Ebv.
-    + cases; try discriminate; split; intros H; try congruence;
-        repeat match goal with
-               | H : fw b _ = Some _ |- _ => apply HB in H
-               | H : bw b _ = Some _ |- _ => apply HB in H
-               end; try congruence;
-        try (apply HB; congruence).
-      all: try (apply HB in Ebv; congruence).
-      all: try (match goal with H : fw b ?x = Some ?y |- _ => apply HB in H end; congruence).
-    + cases; try discriminate; split; intros H; try congruence;
-        try (apply HB in H; congruence); try (apply HB; congruence).
-      all: try (apply HB in H; apply HB in Efk; congruence).
-  - destruct (bw b v) as [ok|] eqn:Ebv.
-    + cases; try discriminate; split; intros H; try congruence;
-        try (apply HB in H; congruence); try (apply HB; congruence).
-      all: try (apply HB in H; apply HB in Ebv; congruence).
-    + cases; try discriminate; split; intros H; try congruence;
-        try (apply HB in H; congruence); try (apply HB; congruence).
+  unfold bw1. destruct (fw b k) as [ov|] eqn:E.
+  - unfold mdel. destruct (Nat.eq_dec x ov); [discriminate|]. intros H. split; auto. congruence.
+  - intros H. split; auto. discriminate.
 Qed.
-End Bidi.
+Lemma bw1_keep x y : bw b x = Some y -> fw b k <> Some x -> bw1 x = Some y.
+Proof.
+  unfold bw1. intros H Hn. destruct (fw b k) as [ov|] eqn:E; auto.
+  unfold mdel. destruct (Nat.eq_dec x ov); [subst; congruence|auto].
+Qed.
+Lemma fw1_some x y : fw1 x = Some y -> fw b x = Some y /\ bw1 v <> Some x.
+Proof.
+  unfold fw1. destruct (bw1 v) as [ok|] eqn:E.
+  - unfold mdel. destruct (Nat.eq_dec x ok); [discriminate|]. intros H. split; auto. congruence.
+  - intros H. split; auto. discriminate.
+Qed.
+Lemma fw1_keep x y : fw b x = Some y -> bw1 v <> Some x -> fw1 x = Some y.
+Proof.
+  unfold fw1. intros H Hn. destruct (bw1 v) as [ok|] eqn:E; auto.
+  unfold mdel. destruct (Nat.eq_dec x ok); [subst; congruence|auto].
+Qed.
+
+Theorem put_bij : Bij (put b k v).
+Proof.
+  intros k' v'. unfold put. fold bw1. fold fw1. cbn [fw bw]. unfold mput.
+  destruct (Nat.eq_dec k' k) as [->|Hk]; destruct (Nat.eq_dec v' v) as [->|Hv].
+  - tauto.
+  - (* k' = k, v' <> v *)
+    split; [congruence|]. intros H. apply bw1_some in H. destruct H as [H1 H2].
+    exfalso. apply H2. apply HB. exact H1.
+  - (* k' <> k, v' = v *)
+    split; [|congruence]. intros H. exfalso.
+    apply fw1_some in H. destruct H as [H1 H2]. apply H2.
+    apply bw1_keep; [apply HB; exact H1|].
+    intros Hc. apply HB in Hc. apply HB in H1. congruence.
+  - split; intros H.
+    + apply fw1_some in H. destruct H as [H1 _]. apply bw1_keep; [apply HB; exact H1|].
+      intros Hc. apply HB in Hc. apply HB in H1. congruence.
+    + apply bw1_some in H. destruct H as [H1 _]. apply fw1_keep; [apply HB; exact H1|].
+      intros Hc. apply bw1_some in Hc. destruct Hc as [Hc _]. apply HB in Hc. apply HB in H1. congruence.
+Qed.
+End Proof.
+Print Assumptions put_bij.
